@@ -407,6 +407,11 @@ def pty_session(year, forms, path, answer_fn, fault=None, timeout=300):
     for f in forms:
         args += ['--form', f]
     env = dict(os.environ, PYTHONPATH=REPO, PYTHONDONTWRITEBYTECODE='1', PYTHONWARNINGS='ignore')
+    # the input file usually does not live on the file system of the temporary directory (a home directory against a tmpfs /tmp):
+    # give the child a temporary directory on another device than the input file when this machine has one
+    other = other_device_dir(path)
+    if other:
+        env['TMPDIR'] = other
     pid, fd = pty.fork()
     if pid == 0:
         # a check started as a background job of a non-interactive shell inherits SIGINT/SIGQUIT *ignored*,
@@ -482,6 +487,21 @@ def pty_session(year, forms, path, answer_fn, fault=None, timeout=300):
     return status, given
 
 
+def other_device_dir(path):
+    """a writable directory on another device than `path`'s directory, or None"""
+    try:
+        dev = os.stat(os.path.dirname(os.path.abspath(path))).st_dev
+    except OSError:
+        return None
+    for d in ('/dev/shm', '/run/shm', '/var/tmp', '/tmp', os.path.expanduser('~')):
+        try:
+            if os.path.isdir(d) and os.access(d, os.W_OK) and os.stat(d).st_dev != dev:
+                return d
+        except OSError:
+            continue
+    return None
+
+
 def run_pty_shard(spec, tier, seed):
     from hv import scen
     res = Result()
@@ -512,6 +532,8 @@ def run_pty_shard(spec, tier, seed):
                 status, given = pty_session(year, p.forms(), path, mk(p), fault=(kind, k))
                 res.evaluations += 1
                 res.count('pty_faults_' + kind)
+                if other_device_dir(path):
+                    res.count('pty_sessions_with_tmpdir_on_another_device')
                 rp = {'engine': 'pty-fault', 'shard': spec, 'fault': [kind, k]}
                 if status == 'keeps-asking':
                     res.violation(f'C20|pty-{kind}|keeps-asking-after-the-key', f'real terminal: {"Ctrl-C" if kind == "sigint" else "Ctrl-D (end of input)"} pressed forty times at question {k} and the program goes on asking the same question', rp)
